@@ -158,7 +158,7 @@ FIXED = [b"", b"a=b", b"foo=bar", b"name=aaa name=bbb core=123 core=456 name=ccc
          b"generate_advisor = { [[scaled_skill] a=b ] [[!scaled_skill] c=d ]  }", b"foo = { [[add] $add$]}", b"a={b=c",
          b"a = b {} { c }", b"on_actions = {\n a\n delay = { days = { 5 10 }}\n b\n delay = { days = { 15 20 }}\n c\n}",
          b"x={a=b 10 c=d 20}", b"a = { 1 rgb { 2 } }", b"a = { b = 1 c rgb { 2 } }", b"a = { b=1 2 3 c = rgb { 1 } }",
-         b"m = { a b=c d }", b"m = { a b=c = }", b"m = { a = b c < }", b"@a=1 b=@[a+1]", b"a=b}", b"a={b=1} }"]
+         b"a = { b=1 2 3 {} c = rgb { 1 } }", b"m = { a b=c d }", b"m = { a b=c = }", b"m = { a = b c < }", b"@a=1 b=@[a+1]", b"a=b}", b"a={b=1} }"]
 
 
 def gen_docs(ctx, n_struct, n_mut, n_noise):
